@@ -182,6 +182,7 @@ func BuildOverlay(repo, verifHome string, specs []HarnessSpec) (*Overlay, error)
 		rel, _ := filepath.Rel(harnessRoot, f)
 		ov.Files[filepath.Join(repo, rel)] = b
 	}
+	rewritten := map[string]*hookAssign{}
 	for dir, hs := range byPkg {
 		// package name: read from the first harness file
 		b, _ := os.ReadFile(hs[0].File)
@@ -192,14 +193,74 @@ func BuildOverlay(repo, verifHome string, specs []HarnessSpec) (*Overlay, error)
 				break
 			}
 		}
+		// native stub substitution: rewrite stub targets to consult a hook variable
+		thisPkg := modulePath + "/" + dir
+		imports := map[string]string{} // pkg path -> alias
+		allHooks := map[string]bool{}  // qualified hook expressions
+		setups := map[string][]string{}
+		for _, h := range hs {
+			callees := make([]string, 0, len(h.Stubs))
+			for c := range h.Stubs {
+				callees = append(callees, c)
+			}
+			sort.Strings(callees)
+			for _, c := range callees {
+				hk, done := rewritten[c]
+				if !done {
+					var err error
+					hk, err = rewriteStub(repo, ov, c)
+					if err != nil {
+						return nil, err
+					}
+					rewritten[c] = hk
+				}
+				if hk == nil {
+					continue
+				}
+				q := hk.Var
+				if hk.PkgPath != thisPkg {
+					al, ok := imports[hk.PkgPath]
+					if !ok {
+						al = fmt.Sprintf("vh%d", len(imports))
+						imports[hk.PkgPath] = al
+					}
+					q = al + "." + hk.Var
+				}
+				allHooks[q] = true
+				setups[h.Name] = append(setups[h.Name], fmt.Sprintf("%s = %s", q, h.Stubs[c]))
+			}
+		}
 		var sb strings.Builder
-		sb.WriteString("//go:build verif\n\npackage " + pkgName + "\n\nimport (\n\t\"testing\"\n\n\tvr \"github.com/algorand/go-algorand/internal/verifrt\"\n)\n\n")
+		sb.WriteString("//go:build verif\n\npackage " + pkgName + "\n\nimport (\n\t\"testing\"\n\n\tvr \"github.com/algorand/go-algorand/internal/verifrt\"\n")
+		ipaths := make([]string, 0, len(imports))
+		for p := range imports {
+			ipaths = append(ipaths, p)
+		}
+		sort.Strings(ipaths)
+		for _, p := range ipaths {
+			fmt.Fprintf(&sb, "\t%s %q\n", imports[p], p)
+		}
+		sb.WriteString(")\n\n")
+		sb.WriteString("func verifResetHooks() {\n")
+		hookList := make([]string, 0, len(allHooks))
+		for q := range allHooks {
+			hookList = append(hookList, q)
+		}
+		sort.Strings(hookList)
+		for _, q := range hookList {
+			fmt.Fprintf(&sb, "\t%s = nil\n", q)
+		}
+		sb.WriteString("}\n\n")
 		sb.WriteString("func TestVerifReplay(t *testing.T) {\n\tvr.RunReplay(t, map[string]func(){\n")
 		seen := map[string]bool{}
 		for _, h := range hs {
 			if !seen[h.Name] {
 				seen[h.Name] = true
-				fmt.Fprintf(&sb, "\t\t%q: %s,\n", h.Name, h.Name)
+				fmt.Fprintf(&sb, "\t\t%q: func() {\n\t\t\tverifResetHooks()\n", h.Name)
+				for _, a := range setups[h.Name] {
+					fmt.Fprintf(&sb, "\t\t\t%s\n", a)
+				}
+				fmt.Fprintf(&sb, "\t\t\tdefer verifResetHooks()\n\t\t\t%s()\n\t\t},\n", h.Name)
 			}
 		}
 		sb.WriteString("\t})\n}\n")
